@@ -101,7 +101,11 @@ class Hexital:
     def _raw_candles_copy(self) -> List[Candle]:
         """Copy of the default candles with any candlestick conversion undone,
         a new timeframe has to collapse and convert the raw values itself"""
-        candles = deepcopy(self._candles[DEFAULT_CANDLES].candles)
+        candles = [
+            candle
+            for candle in deepcopy(self._candles[DEFAULT_CANDLES].candles)
+            if not candle._filler  # gap filling is redone on the new timeframe
+        ]
         for candle in candles:
             if candle.tag:
                 candle.recover_clean_values()
